@@ -218,6 +218,10 @@ pub fn seeds() -> &'static Vec<Seed> {
         let mut out = vec![];
         // golden files of every (suffix, form)
         for c in super::c03::golden_cases() {
+            // (C03's oversized variants — 70 000 empty lines, a 70 000-byte attribute — are not seeds for byte-level sweeps)
+            if c.far || matches!(c.events.get(1), Some(crate::builder::Ev::Open { tag, .. }) if tag.attrs.len() > 1) {
+                continue;
+            }
             let p = super::c03::prepare(&c);
             out.push(Seed { suffix: c.suffix, text: p.built.text, origin: format!("golden:{}", p.suffix) });
         }
